@@ -56,7 +56,12 @@ if __name__ == "__main__":
     E["C03-rdf-default-after-torn-source"] = ("C03", [{"op": "init", "source": "sample:pagebreak.odt", "how": "path", "salt": 0}, SAVE(target="inplace", fault={"site": "writestr", "k": 1, "errno": "EACCES", "partial": False}), SAVE(target="path")], "violation")
     E["C11-pretty-inline-tail-indent"] = ("C11", [{"op": "init", "source": "template:text"}, {"op": "rich_para", "xml": "<text:p>alpha<text:tab/><text:span text:style-name=\"T1\">beta</text:span></text:p>"}, {"op": "save_set", "variants": [{"packaging": "zip", "pretty": True, "target": "bytesio"}]}], "violation")
     E["fixed-C11-pretty-save-edits-memory"] = ("C11", [{"op": "init", "source": "sample:list.odt", "how": "path", "salt": 0}, {"op": "save_set", "variants": [{"packaging": "folder", "pretty": None, "target": "path"}]}], "pass")
-    for fid, (prop, ops, expect) in E.items():
+    DCFG = {"max_steps": 40, "leg": "D"}
+    E["fixed-C10-xmlpart-clone-stale"] = ("C10", [{"op": "init", "source": "template:spreadsheet"}, {"op": "add_file", "via": "bytesio", "content": 1}, {"op": "clone_part", "part": "manifest", "n": 1}], "pass", DCFG)
+    E["fixed-C10-document-clone-drops-unsaved"] = ("C10", [{"op": "init", "source": "sample:example.odt", "how": "path", "salt": 0}, {"op": "edit", "kind": "para", "n": 1}, {"op": "set_part", "kind": "new", "n": 2, "name": "Extra/blob2.bin"}, {"op": "clone_doc"}], "pass", DCFG)
+    for fid, ent in E.items():
+        prop, ops, expect = ent[:3]
+        cfg = ent[3] if len(ent) > 3 else None
         if which and fid not in which:
             continue
-        mk(prop, fid, ops, expect=expect)
+        mk(prop, fid, ops, cfg=cfg, expect=expect)
